@@ -290,6 +290,10 @@ class ResourceScenario(ScenarioData):
         if self.scoreboard is None:
             return False
 
+        # A slot outside the scheduling horizon can never be booked
+        if sb_idx < 0 or sb_idx >= len(self.scoreboard):
+            return False
+
         # Check if slot is during working hours for this resource
         if not self.onShift(sb_idx):
             return False
